@@ -14,6 +14,10 @@ try:
     r = sh('go build ./lib/... && go test -vet=off -count=1 ./lib/... 2>&1 | grep -v "no test files" | grep -v "^ok"', cwd=wt, env=env)
     print('baseline suite on patched tree:', 'pass' if not r.stdout.strip() else 'FAIL\n' + r.stdout[-800:])
     here = os.path.dirname(os.path.dirname(os.path.abspath(__file__)))
+    # work in a private copy of the framework so that builds in /verif itself are not disturbed (gen/GoFacts.v, harness/go.mod)
+    priv = '/tmp/verif-try'
+    sh('mkdir -p %s && rsync -a --delete --exclude .git --exclude work/out --exclude work/dbg --exclude work/dbg15 --exclude work/replays --exclude work/run %s/ %s/' % (priv, here, priv))
+    here = priv
     for p in props:
         r = sh('python3 tools/check.py %s quick' % p, cwd=here, env=dict(os.environ, VERIF_REPO=wt))
         lines = [l for l in r.stdout.splitlines() if l.startswith(('VIOLATION', 'KNOWN', p + ' '))]
@@ -23,4 +27,4 @@ try:
 finally:
     sh('git -C /repo worktree remove --force %s' % wt)
     # restore the harness module to /repo
-    sh("sed -i 's#^replace git.sr.ht/~adrian-blx/psa-dhcp => .*#replace git.sr.ht/~adrian-blx/psa-dhcp => /repo#' harness/go.mod", cwd=os.path.dirname(os.path.dirname(os.path.abspath(__file__))))
+    sh('rm -rf /tmp/verif-try') if os.environ.get('TRY_KEEP') != '1' else None
